@@ -3,6 +3,7 @@ package channel
 import (
 	"bytes"
 	"errors"
+	"github.com/scrapli/scrapligo/util/verifhook"
 	"io"
 	"regexp"
 	"sync"
@@ -183,15 +184,19 @@ func (c *Channel) Open() (reterr error) {
 func (c *Channel) Close() error {
 	c.l.Info("channel closing...")
 
+	verifhook.Point("chan.close.entry")
 	close(c.Errs)
 
 	ch := make(chan struct{})
 
+	verifhook.Point("chan.close.flag")
 	if !c.readLoopExited {
 		go func() {
 			defer close(ch)
 
+			verifhook.Point("chan.close.helper.send")
 			c.done <- struct{}{}
+			verifhook.Point("chan.close.helper.sent")
 		}()
 	} else {
 		close(ch)
@@ -199,6 +204,7 @@ func (c *Channel) Close() error {
 
 	select {
 	case <-ch:
+		verifhook.Point("chan.close.graceful")
 		c.l.Debug("closing underlying transport...")
 
 		return c.t.Close(false)
@@ -206,6 +212,7 @@ func (c *Channel) Close() error {
 		// channel is stuck in a blocking read (almost always the case for netconf!), force close
 		// transport to finish closing connection, so give it c.ReadDelay*(c.ReadDelay/1000) to
 		// "nicely" exit -- with defaults this ends up being 62.5ms.
+		verifhook.Point("chan.close.forced")
 		c.l.Debug("force closing underlying transport...")
 
 		return c.t.Close(true)
